@@ -151,7 +151,7 @@ func (c *Class) errArg(key string) string {
 
 func (c *Class) sigWire() string {
 	switch c.Kind {
-	case "curry", "flip", "apply", "uncurrycurry":
+	case "curry", "flip", "apply", "uncurrycurry", "nest3", "nest4":
 		return wireParams("ps", c.Ps) + " " + wireTys("rs", c.Rs)
 	case "uncurry":
 		return wireParams("outer", c.Outer) + " " + wireParams("inner", c.Inner) + " " + wireTys("rs", c.Rs)
@@ -232,6 +232,10 @@ func (c *Class) goSig() string {
 		return "deriveApply(" + sig(c.Ps, c.Rs, "") + ", last)"
 	case "uncurrycurry":
 		return "deriveUncurry(deriveCurry(" + sig(c.Ps, c.Rs, "") + "))"
+	case "nest3":
+		return "deriveFlip(deriveUncurry(deriveCurry(" + sig(c.Ps, c.Rs, "") + ")))"
+	case "nest4":
+		return "deriveApply(deriveFlip(deriveUncurry(deriveCurry(" + sig(c.Ps, c.Rs, "") + "))), last)"
 	case "uncurry":
 		return "deriveUncurry(func(" + goParams(c.Outer) + ") " + sig(c.Inner, c.Rs, "") + ")"
 	case "tuple":
@@ -557,7 +561,7 @@ func (c *Class) source() string {
 			"\n\t\treturn " + outcome + "\n\t}\n" + seqBranch + "\to1 := inv()\n\to2 := inv()\n\treturn \"p:\" + pre + \"#\" + o1 + \"#\" + o2\n")
 	}
 	switch c.Kind {
-	case "curry", "flip", "apply", "uncurrycurry":
+	case "curry", "flip", "apply", "uncurrycurry", "nest3", "nest4":
 		ts := ptys(c.Ps)
 		w("// F is the function under test; its TYPE carries the parameter names of the class.\n")
 		w("var F func(%s)%s = fImpl\n\n", goParams(c.Ps), c.resOf(c.Rs, ""))
@@ -589,6 +593,15 @@ func (c *Class) source() string {
 		case "uncurrycurry":
 			build = "\tw := deriveUncurry(deriveCurry(F))\n"
 			call = fmt.Sprintf("w(%s)", strings.Join(args, ", "))
+		case "nest3":
+			fl := append([]string{args[1], args[0]}, args[2:]...)
+			build = "\tw := deriveFlip(deriveUncurry(deriveCurry(F)))\n"
+			call = fmt.Sprintf("w(%s)", strings.Join(fl, ", "))
+		case "nest4":
+			n := len(args)
+			fl := append([]string{args[1], args[0]}, args[2:n-1]...)
+			build = fmt.Sprintf("\tw := deriveApply(deriveFlip(deriveUncurry(deriveCurry(F))), %s)\n", args[n-1])
+			call = fmt.Sprintf("w(%s)", strings.Join(fl, ", "))
 		}
 		runFn(build, rvars(len(c.Rs)), call, "outcome("+obsVars(c.Rs)+")")
 	case "uncurry":
@@ -787,7 +800,7 @@ func (c *Class) Ops(rng *rand.Rand, cfg string, nargs int) []string {
 		return out
 	}
 	switch c.Kind {
-	case "curry", "flip", "apply", "uncurrycurry":
+	case "curry", "flip", "apply", "uncurrycurry", "nest3", "nest4":
 		for i := 0; i < nargs; i++ {
 			a := payloads(rng, ptys(c.Ps))
 			if c.Kind == "apply" && c.LastExpr != "" {
